@@ -9,7 +9,9 @@ and the model of markdown_renderer.py (lean/Mistletoe/Model/Markdown.lean), all 
   * `C09_quoted_prose_exact_partial` / `_markdown`: the same inside k nested block quotes (via C04);
   * `C09_blocks_exact_partial`, `C09_blocks_roundtrip_markdown`: prose paragraphs, ATX headings and thematic breaks inside k
     nested block quotes: exact reproduction, idempotence, same document / same HTML / same definitions as the original;
-  * Props/C09_Code.lean (`C09_code_blocks_roundtrip_partial`): the same with fenced and indented code blocks in normal form.
+  * Props/C09_Code.lean (`C09_code_blocks_roundtrip_partial`): the same with fenced and indented code blocks in normal form;
+  * Props/C09_Lists.lean (`C09_lists_roundtrip_partial`): the same with bullet and ordered lists (tight or loose, nested to any
+    depth, padding 1-4) in normal form.
 Units (correspondence of the Markdown renderer MODEL with markdown_renderer.py, byte for byte): `md.render` on all 652 spec
 examples under four option sets, `md.render.gen` on generated documents, `md.render.tree` on parsed trees with perturbed
 attributes (the renderer as a function on trees, beyond what the parser produces); `c09.theorem`: random documents of the
@@ -31,7 +33,7 @@ import impl
 import md_units
 
 ID = 'C09'
-EXTRA_MODULES = ['Mistletoe.Proofs.MdRound', 'Mistletoe.Proofs.MdRoundBlocks', 'Mistletoe.Proofs.MdRoundCode', 'propsdriver']
+EXTRA_MODULES = ['Mistletoe.Proofs.MdRound', 'Mistletoe.Proofs.MdRoundBlocks', 'Mistletoe.Proofs.MdRoundCode', 'Mistletoe.Proofs.MdRoundLists2', 'propsdriver']
 RULE = ('documents from the tree generator (every block and inline construct, canonical and non-canonical spellings, nesting '
         'to depth 4; no character references, no escapes in destinations/titles, continuation lines indented < 4) and the 652 '
         'spec examples, x normalize_whitespace in {False, True}. Distinct by (document, option); non-trivial when the '
@@ -39,9 +41,9 @@ RULE = ('documents from the tree generator (every block and inline construct, ca
 TRUSTED = ['meaning is compared as HtmlRenderer output plus Document.footnotes of the two texts']
 ASSUMPTIONS = ['the generated domain excludes the input classes the property records as known findings; on the spec corpus '
                'the failing examples are listed individually in known_findings.json']
-PARTIAL = ['proved for the fragment: inert prose paragraphs, ATX headings `#..# text`, thematic breaks, fenced and indented code blocks in the renderer\'s normal form, '
+PARTIAL = ['proved for the fragment: inert prose paragraphs, ATX headings `#..# text`, thematic breaks, fenced and indented code blocks, bullet and ordered lists in the renderer\'s normal form, '
            'separated by single empty lines, inside any number of block quotes, no line limit (exact reproduction, idempotence, same '
-           'meaning). Every other construct of the property (setext headings, lists, tables, HTML blocks, link '
+           'meaning). Every other construct of the property (setext headings, tables, lists outside the normal form, HTML blocks, link '
            'definitions, every inline construct other than text and soft breaks) and every document NOT in normal form (clause 1 '
            'and 2 on arbitrary spellings) is decided by the round-trip exploration on the implementation; the Markdown renderer '
            'model itself is tied to the code on all of those by the md.render units']
@@ -195,6 +197,57 @@ def units(ctx):
         ctx.compare('c09.theorem.code', {'text': text, 'normalize_whitespace': nw}, {'md': text, 'same_meaning': True}, real,
                     kind='depth%d' % d['depth'])
     ctx.notes.append('of %d generated documents with code blocks %d satisfy the hypotheses of C09_code_blocks_roundtrip_partial' % (len(docs), n_ok))
+    # the fragment with lists (Props/C09_Lists.lean)
+    def mb(depth):
+        r = rng.random()
+        if r < 0.5 or depth >= 3:
+            return frag_block(rng)
+        ordered = rng.random() < 0.4
+        loose = rng.random() < 0.5
+        n = rng.randint(1, 3)
+        items = [[mb(depth + 1) if (i or rng.random() < 0.2) else {'k': 'para', 'lines': [frag_line(rng) + '\n' for _ in range(rng.randint(1, 2))]}
+                  for i in range(rng.randint(1, 3) if loose else 1)] for _ in range(n)]
+        return {'k': 'list', 'ordered': ordered, 'start': rng.choice([1, 1, 2, 9, 10, 0]) if ordered else 0,
+                'marker': rng.choice('.)') if ordered else rng.choice('-+*'), 'pad': rng.choice([1, 1, 2, 3, 4]), 'loose': loose, 'items': items}
+    def fix_siblings(ts):
+        # two lists in a row are one list unless their marker types differ: keep most generated forests inside the normal form
+        out = []
+        for t in ts:
+            if t['k'] == 'list':
+                t['items'] = [fix_siblings(it) for it in t['items']]
+                if out and out[-1]['k'] == 'list' and (out[-1]['ordered'] == t['ordered']) and (t['ordered'] or out[-1]['marker'] == t['marker']):
+                    t = {'k': 'para', 'lines': [frag_line(rng) + '\n']}
+            out.append(t)
+        return out
+    docs = []
+    for i in range(ctx.budget(2500, 25000)):
+        nw = bool(i % 2)
+        forest = fix_siblings([mb(0) for _ in range(rng.randint(1, 4))])
+        if nw and rng.random() < 0.8:
+            def pad1(ts):
+                for t in ts:
+                    if t['k'] == 'list':
+                        t['pad'] = 1
+                        for it in t['items']:
+                            pad1(it)
+            pad1(forest)
+        docs.append({'op': 'c09.lists', 'forest': forest, 'depth': rng.choice([0, 0, 0, 1, 2]), 'nw': nw})
+    res = common.driver_batch(docs, binary=common.PROPS_DRIVER)
+    n_ok = n_list = 0
+    for d, r in zip(docs, res):
+        if not (isinstance(r, dict) and r.get('ok')):
+            continue
+        n_ok += 1
+        n_list += any(t['k'] == 'list' for t in d['forest'])
+        text = r['text']
+        try:
+            out = md(text, d['nw'])
+            real = {'md': out, 'same_meaning': meaning(out) == meaning(text)}
+        except Exception as e:
+            real = {'raises': type(e).__name__}
+        ctx.compare('c09.theorem.lists', {'text': text, 'normalize_whitespace': d['nw']}, {'md': text, 'same_meaning': True}, real,
+                    kind='depth%d,nw=%s' % (d['depth'], d['nw']))
+    ctx.notes.append('of %d generated documents with lists %d satisfy the hypotheses of C09_lists_roundtrip_partial (%d contain a list)' % (len(docs), n_ok, n_list))
 
 
 
